@@ -20,7 +20,10 @@ import (
 // the ranges of the narrower types.
 var mixedPool = func() []any {
 	out := []any{nil, false, true, "", "a", "b", 'a', 'b', rune(0), complex(1, 2), complex(1, -2), complex64(complex(1, 2)),
-		float32(0), float32(1.5), float32(-2), float32(300), float64(0), 1.5, -2.0, 300.0, math.Copysign(0, -1), 1e300}
+		float32(0), float32(1.5), float32(-2), float32(300), float64(0), 1.5, -2.0, 300.0, math.Copysign(0, -1), 1e300,
+		// a float64 that a float32 cannot hold exactly, next to the float32 it would round to; beyond the float32
+		// range next to float32 infinity; below the smallest float32 next to zero
+		float32(0.1), 0.1, float64(float32(0.1)), 1 + 1e-12, float32(1), float32(math.Inf(1)), math.Inf(1), 5e-324, float32(math.MaxFloat32), math.MaxFloat32 * 2}
 	for _, v := range []uint64{0, 1, 127, 128, 255} {
 		out = append(out, uint8(v), uint16(v), uint32(v), uint64(v), uint(v), int16(v), int32(v), int64(v), int(v))
 	}
